@@ -36,4 +36,3 @@ LEVEL_TEXT = ("Proof (partial where stated): an executable relational model of t
 LEVEL_NOTE = ("Refinement to the documented data model is stated but not proved (open finding F30 is a genuine counterexample). Trusted: Lean kernel, the schema translator, SQLite's enforcement of the schema, "
               "the executor/generator/oracle.")
 TECHNIQUE = "Lean 4 proof (invariant by induction over API histories) about an executable relational model tied to the sources by translated schema facts and differential execution"
-NOT_CLAIMED = "model being updated to follow /repo fix 95b7b25 (branch gF)"
